@@ -883,6 +883,10 @@ func (t *Tree) oracle(op string, a []int, ret string, idBefore int, rkeys []int)
 	} else if resultBad {
 		disagree = true
 		sig := "C17/result-mismatch:" + op
+		if (op == "find" || op == "findd" || op == "findid") && t.ReportPrefix == "C18/" {
+			// the answers of the search calls are C18's subject too: report them under the running property
+			sig = "C18/result-mismatch:" + op
+		}
 		if op == "rm" && ret == "0" && exp == "1" {
 			for _, x := range w {
 				if x.Key == a[0] && x.ID != 0 {
